@@ -34,11 +34,12 @@ func (Engine) Name() string { return "E2-wire" }
 
 // Runs implements core.Engine.
 func (Engine) Runs(prop, tier string) int {
+	quick := map[string]int{"C01": 240000, "C02": 160000, "C05": 100000}[prop]
 	if tier == "thorough" {
-		return 800000
+		return quick * 40
 	}
 
-	return 24000
+	return quick
 }
 
 // Describe implements core.Engine.
@@ -538,6 +539,7 @@ func runC02(t *core.Tape, st *core.Stats) *core.Violation {
 	}
 
 	t.Logf("message: %s", msg)
+	st.State(core.HashString(string(msg)))
 
 	method := "POST"
 	if t.Bool(1, 3) {
